@@ -51,8 +51,10 @@ StrDefault(X, A, n) ==
 \* the member a choice selects without looking at the user's pick
 SelFromDefaults(X, A, c) ==
   LET ds == ChDefaultsOf(X, A, c)
-      ok == {i \in 1..Len(ds) : EvalE(X, A, ds[i].c) = 2 /\ MemberVis(X, A, ds[i].m) = 2}
       ms == X.c[c].members
+      \* (as in KEval.SelOf: a default naming something that is not a member selects nothing)
+      ok == {i \in 1..Len(ds) : (\E j \in 1..Len(ms) : ms[j] = ds[i].m)
+                                 /\ EvalE(X, A, ds[i].c) = 2 /\ MemberVis(X, A, ds[i].m) = 2}
       vm == {i \in 1..Len(ms) : MemberVis(X, A, ms[i]) = 2}
   IN IF ok # {} THEN ds[CHOOSE i \in ok : \A j \in ok : i <= j].m
      ELSE IF vm # {} THEN ms[CHOOSE i \in vm : \A j \in vm : i <= j]
